@@ -268,7 +268,21 @@ def one_case(ctx, mon, segment, bounds):
     from plotink import plot_utils
     mon.code_calls = 0
     try:
-        plot_utils.clip_segment([list(segment[0]), list(segment[1])], bounds)
+        shape = mon.code_calls = 0
+        seg_arg = [list(segment[0]), list(segment[1])]
+        k = int(abs(hash((segment[0][0], segment[1][1]))) % 10)
+        if k == 0:          # other legal container shapes: tuples, a tuple of lists
+            seg_arg = (tuple(segment[0]), tuple(segment[1]))
+            ctx.tag("shape: segment given as tuples")
+        elif k == 1:
+            bounds = (tuple(bounds[0]), tuple(bounds[1]))
+            ctx.tag("shape: rectangle given as tuples")
+        elif k == 2:        # zeros written as negative zero
+            seg_arg = [[-0.0 if v == 0 else v for v in pt] for pt in seg_arg]
+            bounds = [[-0.0 if v == 0 else v for v in pt] for pt in bounds]
+            ctx.tag("shape: zeros given as -0.0")
+        del shape
+        plot_utils.clip_segment(seg_arg, bounds)
     except Exception as exc:
         ctx.violation("exception", {"fn": "clip_segment", "segment": segment, "bounds": bounds,
                                     "exception": repr(exc)})
@@ -334,6 +348,8 @@ def run(ctx):
         ctx.need(cls, 100)
     ctx.need("monitor:clip_segment evaluated", 20_000)
     ctx.need("history: after a failed call (malformed arguments)", 50)
+    ctx.need("shape: segment given as tuples", 1000)
+    ctx.need("shape: rectangle given as tuples", 1000)
     contracts.uninstall_all()
 
 
